@@ -1,12 +1,1198 @@
-//! C12 — not built yet (stub).
+//! C12 — Aggregation, cut-through and compact-block hydration are faithful.
+//!
+//! part "multiset": a generated multiset of 1–6 valid transactions (independent
+//! or chained, multi-kernel, Plain/HeightLocked/NRD kernels, zero and non-zero
+//! offsets) is aggregated and the result compared with a model the harness
+//! computes on commitment sets; order/grouping independence, de-aggregation
+//! (non-chained sets only) and compact-block hydration (random and injected
+//! nonces, every grouping) are checked on the same multiset.
+//!
+//! part "cancel": hand-built multisets of 2–4 valid transactions whose non-zero
+//! offsets sum to zero (an operand may choose its own offset freely, so
+//! `-offset(A)` is a legal offset for B). part "block_cancel": one valid
+//! transaction whose offset is minus the previous header's total offset.
+//!
+//! Representation note (transaction.rs `aggregate`): a single operand is
+//! returned as is (features-and-commit inputs), two or more give commit-only
+//! inputs; `==` is therefore asserted only between equal representations, and
+//! every comparison is also made on input commitments and on v3 wire bytes,
+//! which do not depend on the representation.
 
 use crate::engine::*;
-use serde_json::Value;
+use crate::world::*;
+use crate::{ensure, fail};
+use grin_core::core::hash::Hashed;
+use grin_core::core::id::ShortIdentifiable;
+use grin_core::core::transaction::{aggregate, deaggregate};
+use grin_core::core::{Block, BlockHeader, CommitWrapper, CompactBlock, Inputs, Output, ShortId, Transaction, TxKernel, Weighting};
+use grin_core::global;
+use grin_core::pow::Difficulty;
+use grin_core::ser::{self, DeserializationMode, ProtocolVersion, Writeable, Writer};
+use grin_keychain::BlindingFactor;
+use grin_util::secp::key::SecretKey;
+use grin_util::static_secp_instance;
+use proptest::prelude::*;
+use serde_derive::{Deserialize, Serialize};
+use serde_json::{json, Value};
+use std::collections::{BTreeMap, BTreeSet};
 
-pub fn run(_ctx: &Ctx) -> HResult<()> {
-	Err(HarnessError("C12 check not built yet".into()))
+// ---------------------------------------------------------------- case
+
+#[derive(Clone, Debug, Serialize, Deserialize)]
+pub struct Case {
+	/// the multiset, in its canonical ("identity") order
+	pub txs: Vec<TxSpec>,
+	/// seeds the random permutations / set partitions (all of them derive from it)
+	pub pick: u64,
+	/// the compact-block nonce that is injected
+	pub nonce: u64,
+	/// key index of the coinbase output
+	pub cb_key: u32,
 }
 
-pub fn replay(_ctx: &Ctx, _part: &str, _case: &Value) -> PResult {
+/// output universe: 8 amounts × 8 keys = 64 bulletproofs, memoised in LIB
+const AMOUNTS: [u64; 8] = [3, 7, 20, 55, 130, 400, 1_000, 60_000];
+const N_KEYS: usize = 8;
+const UNIVERSE: usize = AMOUNTS.len() * N_KEYS;
+const MAX_FEE: u64 = 4;
+const MAX_TXS: usize = 6;
+const MAX_KERNELS: usize = 3;
+
+fn universe(i: usize) -> OutRef {
+	OutRef {
+		amount: AMOUNTS[i / N_KEYS],
+		key: (i % N_KEYS) as u32,
+		cb: false,
+	}
+}
+
+#[derive(Clone, Debug)]
+struct RawKern {
+	kind: u8,
+	fee: u8,
+	shift: u8,
+	lock: u16,
+}
+
+#[derive(Clone, Debug)]
+struct RawTx {
+	outs: Vec<(u8, u8)>,
+	chain: Vec<u16>,
+	extra_in: u8,
+	kernels: Vec<RawKern>,
+	zero_offset: bool,
+}
+
+#[derive(Clone, Debug)]
+struct Raw {
+	chained: bool,
+	txs: Vec<RawTx>,
+	pick: u64,
+	nonce: u64,
+}
+
+fn raw_kern() -> impl Strategy<Value = RawKern> {
+	(
+		prop_oneof![5 => Just(0u8), 2 => Just(1u8), 2 => Just(2u8)],
+		0u8..MAX_FEE as u8,
+		prop_oneof![3 => Just(0u8), 1 => 0u8..=15],
+		any::<u16>(),
+	)
+		.prop_map(|(kind, fee, shift, lock)| RawKern { kind, fee, shift, lock })
+}
+
+fn raw_tx() -> impl Strategy<Value = RawTx> {
+	(
+		prop::collection::vec((0u8..AMOUNTS.len() as u8, 0u8..N_KEYS as u8), 1..=3),
+		prop::collection::vec(any::<u16>(), 0..=2),
+		1u8..=3,
+		prop_oneof![
+			3 => prop::collection::vec(raw_kern(), 1..=1),
+			2 => prop::collection::vec(raw_kern(), 2..=MAX_KERNELS),
+		],
+		prop::bool::weighted(0.4),
+	)
+		.prop_map(|(outs, chain, extra_in, kernels, zero_offset)| RawTx {
+			outs,
+			chain,
+			extra_in,
+			kernels,
+			zero_offset,
+		})
+}
+
+fn nonce_strategy() -> impl Strategy<Value = u64> {
+	prop_oneof![
+		1 => Just(0u64),
+		1 => Just(u64::MAX),
+		1 => 0u64..256,
+		1 => (0u32..64).prop_map(|k| 1u64 << k),
+		4 => any::<u64>(),
+	]
+}
+
+fn raw_case() -> impl Strategy<Value = Raw> {
+	(
+		prop::bool::weighted(0.6),
+		prop::collection::vec(raw_tx(), 1..=MAX_TXS),
+		any::<u64>(),
+		nonce_strategy(),
+	)
+		.prop_map(|(chained, txs, pick, nonce)| Raw { chained, txs, pick, nonce })
+}
+
+/// Resolve the abstract choices into balanced specs by construction: outputs
+/// are drawn without replacement from the universe, chained inputs are
+/// outputs of earlier transactions of the multiset that nobody has spent yet,
+/// fresh inputs (bare commitments under keys no output uses) make up the
+/// balance. Hence no two transactions share a commitment unless chained.
+fn resolve(raw: &Raw) -> Case {
+	let mut used = [false; UNIVERSE];
+	let mut unspent: Vec<OutRef> = vec![];
+	let mut txs = vec![];
+	for (ti, rt) in raw.txs.iter().enumerate() {
+		let mut outputs = vec![];
+		for &(a, k) in &rt.outs {
+			let mut idx = (a as usize % AMOUNTS.len()) * N_KEYS + (k as usize % N_KEYS);
+			while used[idx] {
+				idx = (idx + 1) % UNIVERSE;
+			}
+			used[idx] = true;
+			outputs.push(universe(idx));
+		}
+		let kernels: Vec<KernelSpec> = rt
+			.kernels
+			.iter()
+			.map(|k| {
+				let kind = match k.kind {
+					0 => KKind::Plain,
+					1 => KKind::HeightLocked,
+					_ => KKind::Nrd,
+				};
+				KernelSpec {
+					kind,
+					fee: 1 + (k.fee as u64 % MAX_FEE),
+					shift: k.shift & 15,
+					lock: match kind {
+						KKind::Plain => 0,
+						KKind::HeightLocked => k.lock as u64,
+						KKind::Nrd => 1 + (k.lock as u64 % grin_core::consensus::WEEK_HEIGHT),
+					},
+					excess_tag: 0,
+				}
+			})
+			.collect();
+		let need: u64 = outputs.iter().map(|o| o.amount).sum::<u64>() + kernels.iter().map(|k| k.fee).sum::<u64>();
+		let mut inputs = vec![];
+		let mut csum = 0u64;
+		if raw.chained {
+			for &p in &rt.chain {
+				if unspent.is_empty() {
+					break;
+				}
+				let j = (p as usize * unspent.len()) >> 16;
+				if csum + unspent[j].amount <= need {
+					let o = unspent.remove(j);
+					csum += o.amount;
+					inputs.push(o);
+				}
+			}
+		}
+		let rem = need - csum;
+		let k = (rt.extra_in as u64).min(rem);
+		for j in 0..k {
+			let amount = if j + 1 == k { rem - (rem / k) * (k - 1) } else { rem / k };
+			inputs.push(OutRef {
+				amount,
+				key: 1000 + (ti * 8) as u32 + j as u32,
+				cb: false,
+			});
+		}
+		unspent.extend(outputs.iter().cloned());
+		txs.push(TxSpec {
+			inputs,
+			outputs,
+			kernels,
+			zero_offset: rt.zero_offset,
+		});
+	}
+	Case {
+		txs,
+		pick: raw.pick,
+		nonce: raw.nonce,
+		cb_key: 0,
+	}
+}
+
+pub fn case_strategy() -> impl Strategy<Value = Case> {
+	raw_case().prop_map(|r| resolve(&r))
+}
+
+// ---------------------------------------------------------------- assembling operands
+
+/// `world::assemble` derives every blinding factor through the keychain
+/// (BIP32, ≈9 ms per derivation — measured), which would dominate a multiset
+/// with a dozen inputs. Same construction here with the derived (pre-switch)
+/// key memoised per key index; the first use of every key index is checked
+/// against `LIB.commit`, so the commitments are the library's.
+fn raw_key(o: &OutRef) -> Result<SecretKey, Fail> {
+	use grin_keychain::{Keychain, SwitchCommitmentType};
+	use std::collections::HashMap;
+	use std::sync::{Mutex, OnceLock};
+	static MEMO: OnceLock<Mutex<HashMap<(u32, bool), SecretKey>>> = OnceLock::new();
+	let memo = MEMO.get_or_init(|| Mutex::new(HashMap::new()));
+	if let Some(k) = memo.lock().unwrap().get(&(o.key, o.cb)) {
+		return Ok(k.clone());
+	}
+	let raw = LIB
+		.kc
+		.derive_key(0, &o.key_id(), SwitchCommitmentType::None)
+		.map_err(|e| Fail::new("harness:derive", format!("{:?}", e)))?;
+	let (_, c) = blind_commit_with(o, &raw)?;
+	ensure!(c == LIB.commit(o), "harness:derive", "memoised derivation disagrees with LIB.commit for {:?}", o);
+	memo.lock().unwrap().insert((o.key, o.cb), raw.clone());
+	Ok(raw)
+}
+
+fn blind_commit_with(o: &OutRef, raw: &SecretKey) -> Result<(SecretKey, grin_util::secp::pedersen::Commitment), Fail> {
+	let secp = static_secp_instance();
+	let secp = secp.lock();
+	let b = secp.blind_switch(o.amount, raw.clone()).map_err(|e| Fail::new("harness:derive", format!("{:?}", e)))?;
+	let c = secp.commit(o.amount, b.clone()).map_err(|e| Fail::new("harness:derive", format!("{:?}", e)))?;
+	Ok((b, c))
+}
+
+fn blind_commit(o: &OutRef) -> Result<(SecretKey, grin_util::secp::pedersen::Commitment), Fail> {
+	let raw = raw_key(o)?;
+	blind_commit_with(o, &raw)
+}
+
+/// The precondition "operand is a valid transaction": everything
+/// `Transaction::validate(AsTransaction)` checks, with the range proof of each
+/// distinct library output verified once per process instead of once per use
+/// (all secp work is serialised behind grin's global context mutex, and a
+/// proof verification is the most expensive item).
+fn operand_valid(tx: &Transaction) -> Result<(), String> {
+	use grin_core::core::Committed;
+	use std::collections::HashSet;
+	use std::sync::{Mutex, OnceLock};
+	static PROVEN: OnceLock<Mutex<HashSet<Vec<u8>>>> = OnceLock::new();
+	let proven = PROVEN.get_or_init(|| Mutex::new(HashSet::new()));
+	tx.body.verify_features().map_err(|e| format!("features: {:?}", e))?;
+	tx.body.validate_read(Weighting::AsTransaction).map_err(|e| format!("validate_read: {:?}", e))?;
+	for o in tx.outputs() {
+		let key = ser::ser_vec(o, pv()).map_err(|e| format!("{:?}", e))?;
+		if proven.lock().unwrap().contains(&key) {
+			continue;
+		}
+		o.verify_proof().map_err(|e| format!("range proof: {:?}", e))?;
+		proven.lock().unwrap().insert(key);
+	}
+	TxKernel::batch_sig_verify(tx.kernels()).map_err(|e| format!("kernel signature: {:?}", e))?;
+	tx.verify_kernel_sums(tx.overage(), tx.offset.clone()).map_err(|e| format!("kernel sums: {:?}", e))?;
 	Ok(())
+}
+
+/// A valid transaction for a balanced spec (same rules as `world::assemble`:
+/// zero_offset ⇒ the last kernel's key absorbs the remainder, otherwise the
+/// offset does).
+fn fast_assemble(spec: &TxSpec) -> Result<Transaction, Fail> {
+	let mut in_blinds = vec![];
+	let mut inputs = vec![];
+	for o in &spec.inputs {
+		let (b, c) = blind_commit(o)?;
+		in_blinds.push(b);
+		inputs.push(grin_core::core::Input::new(o.features(), c));
+	}
+	let mut out_blinds = vec![];
+	let mut outputs = vec![];
+	for o in &spec.outputs {
+		let (b, c) = blind_commit(o)?;
+		let out = LIB.output(o);
+		ensure!(out.commitment() == c, "harness:derive", "library output for {:?} has another commitment", o);
+		out_blinds.push(b);
+		outputs.push(out);
+	}
+	let r = sum_scalars(out_blinds, in_blinds).ok_or_else(|| Fail::new("harness:assemble", "blinding sum is zero"))?;
+	let tag = format!("{:?}", spec);
+	let mut keys: Vec<SecretKey> = (0..spec.kernels.len()).map(|i| scalar_from(format!("{}#{}", tag, i).as_bytes())).collect();
+	ensure!(!keys.is_empty(), "harness:assemble", "spec without kernels");
+	let mut offset = BlindingFactor::zero();
+	if spec.zero_offset {
+		let f = keys.len() - 1;
+		let others: Vec<SecretKey> = keys[..f].to_vec();
+		keys[f] = sum_scalars(vec![r], others).ok_or_else(|| Fail::new("harness:assemble", "kernel key is zero"))?;
+	} else {
+		let o = sum_scalars(vec![r], keys.clone()).ok_or_else(|| Fail::new("harness:assemble", "offset is zero"))?;
+		offset = BlindingFactor::from_secret_key(o);
+	}
+	let kernels: Vec<TxKernel> = spec.kernels.iter().zip(keys.iter()).map(|(k, key)| sign_kernel(k.features(), key)).collect();
+	Ok(Transaction::new(inputs.as_slice().into(), &outputs, &kernels).with_offset(offset))
+}
+
+// ---------------------------------------------------------------- helpers
+
+fn pv() -> ProtocolVersion {
+	ProtocolVersion::local()
+}
+
+fn bytes_of<W: Writeable>(w: &W) -> Result<Vec<u8>, Fail> {
+	ser::ser_vec(w, pv()).map_err(|e| Fail::new("ser-err", format!("{:?}", e)))
+}
+
+fn hx(b: &[u8]) -> String {
+	let h = grin_util::ToHex::to_hex(&b.to_vec());
+	truncate(&h, 24)
+}
+
+fn input_commits(inputs: Inputs) -> Vec<Vec<u8>> {
+	let v: Vec<CommitWrapper> = inputs.into();
+	v.iter().map(|c| c.commitment().0.to_vec()).collect()
+}
+
+/// What a body is, independent of the `Inputs` representation: input
+/// commitments, full outputs (with proofs) and full kernels, in the body's order.
+#[derive(Clone, PartialEq, Eq, Debug)]
+struct BodyView {
+	inputs: Vec<Vec<u8>>,
+	outputs: Vec<Vec<u8>>,
+	kernels: Vec<Vec<u8>>,
+}
+
+fn body_view(inputs: Inputs, outputs: &[Output], kernels: &[TxKernel]) -> Result<BodyView, Fail> {
+	Ok(BodyView {
+		inputs: input_commits(inputs),
+		outputs: outputs.iter().map(bytes_of).collect::<Result<_, _>>()?,
+		kernels: kernels.iter().map(bytes_of).collect::<Result<_, _>>()?,
+	})
+}
+
+fn tx_view(tx: &Transaction) -> Result<BodyView, Fail> {
+	body_view(tx.inputs(), tx.outputs(), tx.kernels())
+}
+
+fn same_variant(a: &Inputs, b: &Inputs) -> bool {
+	matches!((a, b), (Inputs::CommitOnly(_), Inputs::CommitOnly(_)) | (Inputs::FeaturesAndCommit(_), Inputs::FeaturesAndCommit(_)))
+}
+
+/// `got` is the same transaction as `want`: same offset, same body in the same
+/// order, equal under `==` (when both carry the same `Inputs` representation;
+/// a single operand keeps features-and-commit inputs, every real aggregate is
+/// commit-only) and byte-identical when serialised.
+fn same_tx(sig: &str, what: &str, got: &Transaction, want: &Transaction) -> PResult {
+	let (g, w) = (tx_view(got)?, tx_view(want)?);
+	ensure!(got.offset == want.offset, format!("{}:offset", sig), "{}: offsets differ", what);
+	ensure!(g.kernels == w.kernels, format!("{}:kernels", sig), "{}: kernels differ ({} vs {})", what, g.kernels.len(), w.kernels.len());
+	ensure!(g.inputs == w.inputs, format!("{}:inputs", sig), "{}: inputs differ ({} vs {})", what, g.inputs.len(), w.inputs.len());
+	ensure!(g.outputs == w.outputs, format!("{}:outputs", sig), "{}: outputs differ ({} vs {})", what, g.outputs.len(), w.outputs.len());
+	if same_variant(&got.body.inputs, &want.body.inputs) {
+		ensure!(got == want, format!("{}:eq", sig), "{}: equal field by field but `==` says different", what);
+	}
+	ensure!(bytes_of(got)? == bytes_of(want)?, format!("{}:bytes", sig), "{}: serialisations differ", what);
+	Ok(())
+}
+
+/// Σ offsets, through libsecp directly; zero offsets are skipped, a sum that
+/// is zero mod n is the zero blinding factor.
+fn sum_offsets(offs: &[BlindingFactor]) -> BlindingFactor {
+	// the harness's own libsecp context: scalar addition needs no capabilities, and
+	// grin's shared context sits behind one global mutex that the code under test queues on
+	thread_local! {
+		static SECP: grin_util::secp::Secp256k1 = grin_util::secp::Secp256k1::with_caps(grin_util::secp::ContextFlag::None);
+	}
+	SECP.with(|secp| sum_offsets_with(secp, offs))
+}
+
+fn sum_offsets_with(secp: &grin_util::secp::Secp256k1, offs: &[BlindingFactor]) -> BlindingFactor {
+	let keys: Vec<SecretKey> = offs
+		.iter()
+		.filter(|o| **o != BlindingFactor::zero())
+		.map(|o| o.secret_key(&secp).expect("offset is a scalar"))
+		.collect();
+	if keys.is_empty() {
+		return BlindingFactor::zero();
+	}
+	match secp.blind_sum(keys, vec![]) {
+		Ok(k) => BlindingFactor::from_secret_key(k),
+		Err(_) => BlindingFactor::zero(),
+	}
+}
+
+/// The model: what aggregating `ops` must give, computed on commitment sets.
+struct Expect {
+	/// input commitments that survive (sorted bytes)
+	inputs: BTreeSet<Vec<u8>>,
+	/// surviving outputs: commitment → full serialisation
+	outputs: BTreeMap<Vec<u8>, Vec<u8>>,
+	/// kernels as a sorted multiset of serialisations
+	kernels: Vec<Vec<u8>>,
+	offset: BlindingFactor,
+	/// commitments that are both created and spent inside the multiset
+	matched: BTreeSet<Vec<u8>>,
+}
+
+fn expect_of(ops: &[&Transaction]) -> Result<Expect, Fail> {
+	let mut ins: Vec<Vec<u8>> = vec![];
+	let mut outs: Vec<(Vec<u8>, Vec<u8>)> = vec![];
+	let mut kernels = vec![];
+	let mut offs = vec![];
+	for tx in ops {
+		ins.extend(input_commits(tx.inputs()));
+		for o in tx.outputs() {
+			outs.push((o.commitment().0.to_vec(), bytes_of(o)?));
+		}
+		for k in tx.kernels() {
+			kernels.push(bytes_of(k)?);
+		}
+		offs.push(tx.offset.clone());
+	}
+	kernels.sort();
+	let in_set: BTreeSet<Vec<u8>> = ins.iter().cloned().collect();
+	let out_set: BTreeSet<Vec<u8>> = outs.iter().map(|(c, _)| c.clone()).collect();
+	// the generator's promise (harness self-check): a commitment is spent at
+	// most once and created at most once in the multiset
+	ensure!(in_set.len() == ins.len(), "harness:duplicate-input", "two operands spend the same commitment");
+	ensure!(out_set.len() == outs.len(), "harness:duplicate-output", "two operands create the same commitment");
+	let matched: BTreeSet<Vec<u8>> = in_set.intersection(&out_set).cloned().collect();
+	Ok(Expect {
+		inputs: in_set.difference(&matched).cloned().collect(),
+		outputs: outs.into_iter().filter(|(c, _)| !matched.contains(c)).collect(),
+		kernels,
+		offset: sum_offsets(&offs),
+		matched,
+	})
+}
+
+/// Compare a transaction with the model, both inclusion directions.
+fn check_model(sig: &str, what: &str, tx: &Transaction, ex: &Expect) -> PResult {
+	let v = tx_view(tx)?;
+	// kernels: multiset union
+	let mut ks = v.kernels.clone();
+	ks.sort();
+	ensure!(
+		ks == ex.kernels,
+		format!("{}:kernels-not-union", sig),
+		"{}: {} kernels, the union of the operands' kernels has {}{}",
+		what,
+		ks.len(),
+		ex.kernels.len(),
+		if ks.len() == ex.kernels.len() { " (same count, different kernels)" } else { "" }
+	);
+	// offset
+	ensure!(tx.offset == ex.offset, format!("{}:offset-not-sum", sig), "{}: offset is not the sum of the operands' offsets", what);
+	// inputs
+	let got_in: BTreeSet<Vec<u8>> = v.inputs.iter().cloned().collect();
+	ensure!(got_in.len() == v.inputs.len(), format!("{}:input-duplicated", sig), "{}: an input appears twice", what);
+	if let Some(c) = ex.inputs.difference(&got_in).next() {
+		fail!(format!("{}:input-missing", sig), "{}: input {} (not matched by any output of the multiset) is missing", what, hx(c));
+	}
+	if let Some(c) = got_in.difference(&ex.inputs).next() {
+		let why = if ex.matched.contains(c) { "a matched spend pair that was not cut through" } else { "not an input of any operand" };
+		fail!(format!("{}:input-extra", sig), "{}: unexpected input {} ({})", what, hx(c), why);
+	}
+	// outputs (commitment sets, then full bytes so that proofs are the operands' proofs)
+	let got_out: BTreeMap<Vec<u8>, Vec<u8>> = tx.outputs().iter().map(|o| (o.commitment().0.to_vec(), bytes_of(o).unwrap_or_default())).collect();
+	ensure!(got_out.len() == tx.outputs().len(), format!("{}:output-duplicated", sig), "{}: an output appears twice", what);
+	if let Some(c) = ex.outputs.keys().find(|c| !got_out.contains_key(*c)) {
+		fail!(format!("{}:output-missing", sig), "{}: output {} (not spent inside the multiset) is missing", what, hx(c));
+	}
+	if let Some(c) = got_out.keys().find(|c| !ex.outputs.contains_key(*c)) {
+		let why = if ex.matched.contains(c) { "a matched spend pair that was not cut through" } else { "not an output of any operand" };
+		fail!(format!("{}:output-extra", sig), "{}: unexpected output {} ({})", what, hx(c), why);
+	}
+	ensure!(got_out == ex.outputs, format!("{}:output-bytes", sig), "{}: an output's features/proof differ from the operand's", what);
+	// sorted (strictly ascending in the consensus order = by hash)
+	let ins: Vec<CommitWrapper> = tx.inputs().into();
+	let sorted = match &tx.body.inputs {
+		Inputs::CommitOnly(v) => v.windows(2).all(|w| w[0] < w[1]),
+		Inputs::FeaturesAndCommit(v) => v.windows(2).all(|w| w[0] < w[1]),
+	};
+	ensure!(
+		sorted && ins.windows(2).all(|w| w[0] < w[1]) && tx.outputs().windows(2).all(|w| w[0] < w[1]) && tx.kernels().windows(2).all(|w| w[0] < w[1]),
+		format!("{}:unsorted", sig),
+		"{}: body is not sorted",
+		what
+	);
+	Ok(())
+}
+
+fn splitmix(s: &mut u64) -> u64 {
+	*s = s.wrapping_add(0x9E37_79B9_7F4A_7C15);
+	let mut z = *s;
+	z = (z ^ (z >> 30)).wrapping_mul(0xBF58_476D_1CE4_E5B9);
+	z = (z ^ (z >> 27)).wrapping_mul(0x94D0_49BB_1331_11EB);
+	z ^ (z >> 31)
+}
+
+fn rand_perm(n: usize, s: &mut u64) -> Vec<usize> {
+	let mut p: Vec<usize> = (0..n).collect();
+	for i in (1..n).rev() {
+		let j = (splitmix(s) % (i as u64 + 1)) as usize;
+		p.swap(i, j);
+	}
+	p
+}
+
+fn all_perms(n: usize) -> Vec<Vec<usize>> {
+	fn rec(cur: &mut Vec<usize>, used: &mut Vec<bool>, n: usize, out: &mut Vec<Vec<usize>>) {
+		if cur.len() == n {
+			out.push(cur.clone());
+			return;
+		}
+		for i in 0..n {
+			if !used[i] {
+				used[i] = true;
+				cur.push(i);
+				rec(cur, used, n, out);
+				cur.pop();
+				used[i] = false;
+			}
+		}
+	}
+	let mut out = vec![];
+	rec(&mut vec![], &mut vec![false; n], n, &mut out);
+	out
+}
+
+/// every way of bracketing `order` into consecutive groups
+fn compositions(order: &[usize]) -> Vec<Vec<Vec<usize>>> {
+	let n = order.len();
+	let mut out = vec![];
+	for mask in 0u32..(1u32 << (n - 1)) {
+		let mut groups = vec![vec![order[0]]];
+		for i in 1..n {
+			if mask & (1 << (i - 1)) != 0 {
+				groups.push(vec![]);
+			}
+			groups.last_mut().unwrap().push(order[i]);
+		}
+		out.push(groups);
+	}
+	out
+}
+
+fn rand_partition(n: usize, s: &mut u64) -> Vec<Vec<usize>> {
+	let k = 1 + (splitmix(s) % n as u64) as usize;
+	let mut groups: Vec<Vec<usize>> = vec![vec![]; k];
+	for i in rand_perm(n, s) {
+		let g = (splitmix(s) % k as u64) as usize;
+		groups[g].push(i);
+	}
+	groups.retain(|g| !g.is_empty());
+	groups
+}
+
+fn agg(sig: &str, what: &str, txs: &[Transaction]) -> Result<Transaction, Fail> {
+	aggregate(txs).map_err(|e| Fail::new(format!("{}:aggregate-err", sig), format!("{}: aggregate of {} transactions failed: {:?}", what, txs.len(), e)))
+}
+
+struct RawCompact<'a> {
+	header: &'a BlockHeader,
+	nonce: u64,
+	outs: &'a [Output],
+	kerns: &'a [TxKernel],
+	ids: &'a [ShortId],
+}
+
+impl<'a> Writeable for RawCompact<'a> {
+	fn write<W: Writer>(&self, w: &mut W) -> Result<(), ser::Error> {
+		self.header.write(w)?;
+		w.write_u64(self.nonce)?;
+		w.write_u64(self.outs.len() as u64)?;
+		w.write_u64(self.kerns.len() as u64)?;
+		w.write_u64(self.ids.len() as u64)?;
+		for o in self.outs {
+			o.write(w)?;
+		}
+		for k in self.kerns {
+			k.write(w)?;
+		}
+		for i in self.ids {
+			i.write(w)?;
+		}
+		Ok(())
+	}
+}
+
+fn id_bytes(ids: &[ShortId]) -> BTreeSet<Vec<u8>> {
+	ids.iter().map(|i| i.as_ref().to_vec()).collect()
+}
+
+/// the compact form of `b` under a chosen nonce: `header ‖ nonce ‖ body`
+/// encoded by the harness (short ids through the public
+/// `ShortIdentifiable::short_id`) and decoded as a `CompactBlock`. None when two
+/// kernels collide on their 48-bit short id under this nonce (no valid
+/// encoding exists then: the reader demands unique ids).
+fn compact_with_nonce(b: &Block, nonce: u64) -> Result<Option<CompactBlock>, Fail> {
+	let h = b.hash();
+	let mut outs: Vec<Output> = b.outputs().iter().filter(|o| o.is_coinbase()).cloned().collect();
+	let mut kerns: Vec<TxKernel> = b.kernels().iter().filter(|k| k.is_coinbase()).cloned().collect();
+	let mut ids: Vec<ShortId> = b.kernels().iter().filter(|k| !k.is_coinbase()).map(|k| k.short_id(&h, nonce)).collect();
+	outs.sort_unstable();
+	kerns.sort_unstable();
+	ids.sort_unstable();
+	if id_bytes(&ids).len() != ids.len() {
+		return Ok(None);
+	}
+	let raw = RawCompact {
+		header: &b.header,
+		nonce,
+		outs: &outs,
+		kerns: &kerns,
+		ids: &ids,
+	};
+	let bytes = bytes_of(&raw)?;
+	let cb: CompactBlock = ser::deserialize(&mut &bytes[..], pv(), DeserializationMode::default())
+		.map_err(|e| Fail::new("compact-decode", format!("compact block encoded with nonce {} does not decode: {:?}", nonce, e)))?;
+	ensure!(cb.nonce == nonce, "compact-decode", "decoded nonce {} != encoded {}", cb.nonce, nonce);
+	ensure!(bytes_of(&cb)? == bytes, "compact-decode", "compact block with nonce {} does not re-encode to the same bytes", nonce);
+	Ok(Some(cb))
+}
+
+/// the compact block carries the header, the coinbase output/kernel in full
+/// and one short id (under its nonce) per other kernel
+fn check_compact(what: &str, cb: &CompactBlock, b: &Block) -> PResult {
+	ensure!(cb.header.hash() == b.hash(), "compact-header", "{}: compact block header hash differs from the block's", what);
+	ensure!(bytes_of(&cb.header)? == bytes_of(&b.header)?, "compact-header", "{}: compact block header differs from the block's", what);
+	let outs: BTreeSet<Vec<u8>> = b.outputs().iter().filter(|o| o.is_coinbase()).map(|o| bytes_of(o).unwrap_or_default()).collect();
+	let got: BTreeSet<Vec<u8>> = cb.out_full().iter().map(|o| bytes_of(o).unwrap_or_default()).collect();
+	ensure!(outs == got && cb.out_full().len() == outs.len(), "compact-out-full", "{}: out_full is not the block's coinbase outputs", what);
+	let ks: BTreeSet<Vec<u8>> = b.kernels().iter().filter(|k| k.is_coinbase()).map(|k| bytes_of(k).unwrap_or_default()).collect();
+	let got: BTreeSet<Vec<u8>> = cb.kern_full().iter().map(|k| bytes_of(k).unwrap_or_default()).collect();
+	ensure!(ks == got && cb.kern_full().len() == ks.len(), "compact-kern-full", "{}: kern_full is not the block's coinbase kernels", what);
+	let h = b.hash();
+	let want: Vec<ShortId> = b.kernels().iter().filter(|k| !k.is_coinbase()).map(|k| k.short_id(&h, cb.nonce)).collect();
+	ensure!(
+		cb.kern_ids().len() == want.len() && id_bytes(cb.kern_ids()) == id_bytes(&want),
+		"compact-kern-ids",
+		"{}: kern_ids are not the short ids of the block's {} non-coinbase kernels under nonce {}",
+		what,
+		want.len(),
+		cb.nonce
+	);
+	Ok(())
+}
+
+fn same_block(what: &str, got: &Block, want: &Block) -> PResult {
+	ensure!(got.hash() == want.hash(), "hydrate:header-hash", "{}: header hash differs", what);
+	ensure!(bytes_of(&got.header)? == bytes_of(&want.header)?, "hydrate:header", "{}: header differs", what);
+	let g = body_view(got.inputs(), got.outputs(), got.kernels())?;
+	let w = body_view(want.inputs(), want.outputs(), want.kernels())?;
+	ensure!(g.kernels == w.kernels, "hydrate:kernels", "{}: kernels differ ({} vs {})", what, g.kernels.len(), w.kernels.len());
+	ensure!(g.inputs == w.inputs, "hydrate:inputs", "{}: inputs differ ({} vs {})", what, g.inputs.len(), w.inputs.len());
+	ensure!(g.outputs == w.outputs, "hydrate:outputs", "{}: outputs differ ({} vs {})", what, g.outputs.len(), w.outputs.len());
+	ensure!(bytes_of(got)? == bytes_of(want)?, "hydrate:bytes", "{}: block serialisations differ", what);
+	Ok(())
+}
+
+// ---------------------------------------------------------------- the check
+
+/// Failures of these classes do not stop the case (the remaining parts still
+/// run); the first one is returned at the end.
+fn soft(softs: &mut Vec<Fail>, r: PResult) {
+	if let Err(f) = r {
+		softs.push(f);
+	}
+}
+
+pub fn check_multiset(ctx: &Ctx, case: &Case, counting: bool) -> PResult {
+	init_thread();
+	let ev = &ctx.ev;
+	let n = case.txs.len();
+	ensure!(n >= 1 && n <= 8, "harness:case", "multiset of {} transactions", n);
+	for s in &case.txs {
+		ensure!(s.balanced(), "harness:unbalanced", "spec does not balance: {:?}", s);
+		ensure!(s.kernels.iter().all(|k| k.excess_tag == 0), "harness:case", "excess tags are not part of this domain");
+	}
+	let txs: Vec<Transaction> = case.txs.iter().map(fast_assemble).collect::<Result<_, _>>()?;
+	for (i, tx) in txs.iter().enumerate() {
+		operand_valid(tx).map_err(|e| Fail::new("harness:operand-invalid", format!("operand {} is not a valid transaction: {}", i, e)))?;
+	}
+	let refs: Vec<&Transaction> = txs.iter().collect();
+	let ex = expect_of(&refs)?;
+	let n_matched = ex.matched.len();
+	let mut seed = case.pick;
+	let mut softs: Vec<Fail> = vec![];
+
+	// ---- 1. the aggregate against the model
+	let whole = agg("agg", "whole multiset", &txs)?;
+	check_model("agg", "aggregate of the whole multiset", &whole, &ex)?;
+	if let Err(e) = whole.validate(Weighting::NoLimit) {
+		fail!("agg:invalid", "aggregate of {} valid transactions ({} cut-through pairs) does not validate: {:?}", n, n_matched, e);
+	}
+	if whole.weight() <= global::max_tx_weight() {
+		// small enough for the reader's weight limit: the wire form reads back (the reader insists on sorted, cut-through bodies)
+		let bytes = bytes_of(&whole)?;
+		let back: Transaction = ser::deserialize(&mut &bytes[..], pv(), DeserializationMode::default())
+			.map_err(|e| Fail::new("agg:unreadable", format!("serialised aggregate does not read back: {:?}", e)))?;
+		ensure!(tx_view(&back)? == tx_view(&whole)? && back.offset == whole.offset, "agg:unreadable", "serialised aggregate reads back differently");
+	}
+
+	// ---- 2. operand order
+	let perms: Vec<Vec<usize>> = if n <= 4 { all_perms(n) } else { (0..6).map(|_| rand_perm(n, &mut seed)).collect() };
+	for p in &perms {
+		let ptx: Vec<Transaction> = p.iter().map(|&i| txs[i].clone()).collect();
+		let a = agg("perm", &format!("permutation {:?}", p), &ptx)?;
+		same_tx("perm", &format!("aggregate of permutation {:?} vs identity order", p), &a, &whole)?;
+	}
+
+	// ---- 3. grouping: every bracketing of the identity order and of one random order, plus random set partitions
+	let order2 = rand_perm(n, &mut seed);
+	let mut groupings: Vec<Vec<Vec<usize>>> = compositions(&(0..n).collect::<Vec<_>>());
+	if n >= 3 {
+		groupings.extend(compositions(&order2));
+	}
+	let first_random = groupings.len();
+	for _ in 0..3 {
+		groupings.push(rand_partition(n, &mut seed));
+	}
+	let mut grouped: Vec<Vec<Transaction>> = vec![];
+	for (gi, g) in groupings.iter().enumerate() {
+		let mut parts = vec![];
+		for grp in g {
+			let sub: Vec<Transaction> = grp.iter().map(|&i| txs[i].clone()).collect();
+			let a = agg("group", &format!("group {:?} of grouping {:?}", grp, g), &sub)?;
+			if gi == first_random {
+				// every group is itself a multiset of the domain
+				let sub_refs: Vec<&Transaction> = sub.iter().collect();
+				check_model("group", &format!("aggregate of group {:?}", grp), &a, &expect_of(&sub_refs)?)?;
+				// full validation (range proofs dominate) for the first group only
+				if parts.is_empty() {
+					if let Err(e) = a.validate(Weighting::NoLimit) {
+						fail!("group:invalid", "aggregate of group {:?} does not validate: {:?}", grp, e);
+					}
+				}
+			}
+			parts.push(a);
+		}
+		let a = agg("group", &format!("outer aggregate of grouping {:?}", g), &parts)?;
+		same_tx("group", &format!("aggregate of the aggregates of {:?} vs flat aggregate", g), &a, &whole)?;
+		grouped.push(parts);
+	}
+
+	// ---- 4. de-aggregation (only when no transaction spends another's output)
+	let (mut n_deagg, mut n_deagg_err) = (0u64, 0u64);
+	if n_matched == 0 && n >= 2 {
+		for mask in 1u32..((1u32 << n) - 1) {
+			let known: Vec<Transaction> = (0..n).filter(|i| mask & (1 << i) != 0).map(|i| txs[i].clone()).collect();
+			let rest: Vec<Transaction> = (0..n).filter(|i| mask & (1 << i) == 0).map(|i| txs[i].clone()).collect();
+			let rest_refs: Vec<&Transaction> = rest.iter().collect();
+			let ex_rest = expect_of(&rest_refs)?;
+			let what = format!("deaggregate(whole, subset mask {:#b} of {})", mask, n);
+			let d = match deaggregate(whole.clone(), &known) {
+				Ok(d) => d,
+				Err(e) => {
+					n_deagg_err += 1;
+					let zero_rest = ex_rest.offset == BlindingFactor::zero();
+					let sig = if zero_rest { SOFT_SIG } else { "deagg:err" };
+					soft(
+						&mut softs,
+						Err(Fail::new(
+							sig,
+							format!(
+								"{} failed: {:?} (offset of the remainder is {}, offset of the known subset is {})",
+								what,
+								e,
+								if zero_rest { "zero" } else { "non-zero" },
+								if sum_offsets(&known.iter().map(|t| t.offset.clone()).collect::<Vec<_>>()) == BlindingFactor::zero() { "zero" } else { "non-zero" }
+							),
+						)),
+					);
+					continue;
+				}
+			};
+			check_model("deagg", &what, &d, &ex_rest)?;
+			let want = agg("deagg", "remainder", &rest)?;
+			same_tx("deagg", &format!("{} vs aggregate of the remainder", what), &d, &want)?;
+			n_deagg += 1;
+		}
+	}
+
+	// ---- 5. block → compact block → hydrate
+	let prev = grin_core::genesis::genesis_dev().header;
+	let fees: u64 = case.txs.iter().map(|s| s.fee()).sum();
+	let (_, reward_out, reward_kern) = LIB.coinbase(fees, case.cb_key);
+	let mut b = Block::from_reward(&prev, &txs, reward_out, reward_kern, Difficulty::from_num(1 + case.pick % 1000))
+		.map_err(|e| Fail::new("block:from_reward-err", format!("from_reward over {} valid transactions failed: {:?}", n, e)))?;
+	// from_reward stamps the wall clock; pin it so that a case is reproducible
+	b.header.timestamp = prev.timestamp + chrono::Duration::seconds(60);
+	{
+		// the block is the aggregate plus the reward
+		let bv = body_view(b.inputs(), b.outputs(), b.kernels())?;
+		let wv = tx_view(&whole)?;
+		let mut want_out = wv.outputs.clone();
+		want_out.push(bytes_of(&reward_out)?);
+		let mut want_k = wv.kernels.clone();
+		want_k.push(bytes_of(&reward_kern)?);
+		let (mut go, mut gk) = (bv.outputs.clone(), bv.kernels.clone());
+		go.sort();
+		gk.sort();
+		want_out.sort();
+		want_k.sort();
+		ensure!(bv.inputs == wv.inputs, "block:inputs", "block inputs are not the aggregate's inputs");
+		ensure!(go == want_out, "block:outputs", "block outputs are not the aggregate's outputs plus the reward output");
+		ensure!(gk == want_k, "block:kernels", "block kernels are not the aggregate's kernels plus the reward kernel");
+		ensure!(
+			b.outputs().windows(2).all(|w| w[0] < w[1]) && b.kernels().windows(2).all(|w| w[0] < w[1]),
+			"block:unsorted",
+			"block body is not sorted"
+		);
+		ensure!(
+			b.header.total_kernel_offset == sum_offsets(&[ex.offset.clone(), prev.total_kernel_offset.clone()]),
+			"block:offset",
+			"block total_kernel_offset is not previous total + Σ offsets"
+		);
+	}
+	let mut compacts: Vec<(String, CompactBlock)> = vec![];
+	let cb_rand: CompactBlock = b.clone().into();
+	check_compact("From<Block>", &cb_rand, &b)?;
+	compacts.push((format!("From<Block> nonce {}", cb_rand.nonce), cb_rand));
+	let mut injected = false;
+	if let Some(cb) = compact_with_nonce(&b, case.nonce)? {
+		check_compact("injected nonce", &cb, &b)?;
+		compacts.push((format!("injected nonce {}", case.nonce), cb));
+		injected = true;
+	}
+	let mut n_hydr = 0u64;
+	let mut supplies: Vec<(String, Vec<Transaction>)> = vec![];
+	supplies.push(("each transaction separately".into(), txs.clone()));
+	supplies.push(("each transaction separately, reversed".into(), txs.iter().rev().cloned().collect()));
+	supplies.push((format!("each transaction separately, order {:?}", order2), order2.iter().map(|&i| txs[i].clone()).collect()));
+	supplies.push(("the single aggregate".into(), vec![whole.clone()]));
+	for (g, parts) in groupings.iter().zip(grouped.iter()) {
+		supplies.push((format!("pre-aggregated groups {:?}", g), parts.clone()));
+	}
+	for (cname, cb) in &compacts {
+		for (sname, sup) in &supplies {
+			let what = format!("hydrate_from({}, {})", cname, sname);
+			let hb = Block::hydrate_from(cb.clone(), sup).map_err(|e| Fail::new("hydrate:err", format!("{} failed: {:?}", what, e)))?;
+			same_block(&what, &hb, &b)?;
+			n_hydr += 1;
+		}
+	}
+
+	// ---- evidence
+	if counting {
+		ev.eval();
+		let kinds: Vec<KKind> = case.txs.iter().flat_map(|t| t.kernels.iter().map(|k| k.kind)).collect();
+		let mut kind_counts = [0u8; 3];
+		for k in &kinds {
+			kind_counts[match k {
+				KKind::Plain => 0,
+				KKind::HeightLocked => 1,
+				KKind::Nrd => 2,
+			}] += 1;
+		}
+		let zero_pat: Vec<bool> = txs.iter().map(|t| t.offset == BlindingFactor::zero()).collect();
+		if n_matched > 0 {
+			ev.class("with_cut_through");
+			ev.class_n("cut_through_pairs", n_matched as u64);
+		} else {
+			ev.class("independent");
+		}
+		if case.txs.iter().any(|t| t.kernels.len() >= 2) {
+			ev.class("multi_kernel");
+		}
+		if kind_counts[2] > 0 {
+			ev.class("nrd");
+		}
+		if kind_counts[1] > 0 {
+			ev.class("height_locked");
+		}
+		if kind_counts.iter().filter(|c| **c > 0).count() >= 2 {
+			ev.class("mixed_kernel_variants");
+		}
+		if zero_pat.iter().any(|z| *z) {
+			ev.class("zero_offset");
+		}
+		if zero_pat.iter().any(|z| *z) && zero_pat.iter().any(|z| !*z) {
+			ev.class("zero_and_nonzero_offsets_mixed");
+		}
+		if zero_pat.iter().all(|z| *z) {
+			ev.class("all_offsets_zero");
+		}
+		if txs.iter().any(|t| t.inputs().len() > 0 && input_commits(t.inputs()).iter().all(|c| ex.matched.contains(c))) {
+			ev.class("tx_with_all_inputs_cut_through");
+		}
+		if n_deagg > 0 {
+			ev.class("deaggregate_checked");
+			ev.class_n("deaggregate_subsets", n_deagg);
+		}
+		if n_deagg_err > 0 {
+			ev.class_n("deaggregate_subsets_that_errored", n_deagg_err);
+		}
+		ev.class_n("hydrate_groupings", n_hydr);
+		ev.class_n("permutations_checked", perms.len() as u64);
+		ev.class_n("groupings_checked", groupings.len() as u64);
+		if injected {
+			ev.class("injected_nonce");
+		}
+		ev.class(&format!("txs_{}", n));
+		if n_matched >= 1 || n >= 3 {
+			let mut gshape: Vec<usize> = groupings[first_random].iter().map(|g| g.len()).collect();
+			gshape.sort();
+			ev.nontrivial(&(n, n_matched, kind_counts, zero_pat.clone(), gshape));
+		}
+		if n_matched >= 1 && n >= 3 {
+			ev.sample("multiset", || serde_json::to_value(case).unwrap());
+		}
+	}
+	// an unclassified soft failure outranks the classified one
+	softs.sort_by_key(|f| f.sig == SOFT_SIG);
+	match softs.into_iter().next() {
+		Some(f) => Err(f),
+		None => Ok(()),
+	}
+}
+
+// ---------------------------------------------------------------- part "cancel"
+
+/// root-cause class shared by `aggregate` and `Block::from_reward`: both sum
+/// offsets through `committed::sum_kernel_offsets`
+const ZERO_SUM_SIG: &str = "offsets-sum-to-zero:sum_kernel_offsets-err";
+
+/// A valid one-kernel transaction with a *chosen* offset: the kernel key is
+/// whatever makes the sums balance (Σout − Σin = key + offset).
+fn tx_with_offset(inputs: &[OutRef], outputs: &[OutRef], fee: u64, offset: &BlindingFactor) -> Result<Transaction, Fail> {
+	let r = sum_scalars(outputs.iter().map(|o| LIB.blind(o)).collect(), inputs.iter().map(|o| LIB.blind(o)).collect()).ok_or_else(|| Fail::new("harness:cancel", "blinding sum is zero"))?;
+	let key = {
+		let secp = static_secp_instance();
+		let secp = secp.lock();
+		let neg = if *offset == BlindingFactor::zero() { vec![] } else { vec![offset.secret_key(&secp).map_err(|e| Fail::new("harness:cancel", format!("{:?}", e)))?] };
+		secp.blind_sum(vec![r], neg).map_err(|e| Fail::new("harness:cancel", format!("{:?}", e)))?
+	};
+	let kern = sign_kernel(KernelSpec::plain(fee).features(), &key);
+	let ins: Vec<grin_core::core::Input> = inputs.iter().map(|o| grin_core::core::Input::new(o.features(), LIB.commit(o))).collect();
+	let outs: Vec<Output> = outputs.iter().map(|o| LIB.output(o)).collect();
+	let tx = Transaction::new(ins.as_slice().into(), &outs, &[kern]).with_offset(offset.clone());
+	if let Err(e) = tx.validate(Weighting::AsTransaction) {
+		fail!("harness:operand-invalid", "hand-built operand is not valid: {:?}", e);
+	}
+	Ok(tx)
+}
+
+fn negate(offs: &[BlindingFactor]) -> Result<BlindingFactor, Fail> {
+	let secp = static_secp_instance();
+	let secp = secp.lock();
+	let keys: Vec<SecretKey> = offs.iter().map(|o| o.secret_key(&secp).expect("scalar")).collect();
+	secp.blind_sum(vec![], keys).map(BlindingFactor::from_secret_key).map_err(|e| Fail::new("harness:cancel", format!("{:?}", e)))
+}
+
+/// `k` transactions whose non-zero offsets sum to zero mod n (the last one's
+/// offset is minus the sum of the others'), variant picks the universe slice.
+pub fn check_cancel(ctx: &Ctx, k: usize, variant: u32, counting: bool) -> PResult {
+	init_thread();
+	ensure!(k >= 2 && k <= 4, "harness:case", "cancel with {} transactions", k);
+	let mk_io = |i: usize| {
+		let out = universe((variant as usize * 5 + i * 9) % UNIVERSE);
+		let inp = OutRef {
+			amount: out.amount + 2,
+			key: 2000 + variant * 8 + i as u32,
+			cb: false,
+		};
+		(inp, out)
+	};
+	let mut txs: Vec<Transaction> = vec![];
+	for i in 0..k - 1 {
+		let (inp, out) = mk_io(i);
+		txs.push(
+			assemble(&TxSpec {
+				inputs: vec![inp],
+				outputs: vec![out],
+				kernels: vec![KernelSpec::plain(2)],
+				zero_offset: false,
+			})
+			.0,
+		);
+		if let Err(e) = txs[i].validate(Weighting::AsTransaction) {
+			fail!("harness:operand-invalid", "operand {} is not valid: {:?}", i, e);
+		}
+	}
+	let neg = negate(&txs.iter().map(|t| t.offset.clone()).collect::<Vec<_>>())?;
+	let (inp, out) = mk_io(k - 1);
+	txs.push(tx_with_offset(&[inp], &[out], 2, &neg)?);
+	let refs: Vec<&Transaction> = txs.iter().collect();
+	let ex = expect_of(&refs)?;
+	ensure!(ex.offset == BlindingFactor::zero(), "harness:cancel", "offsets do not cancel");
+	if counting {
+		ctx.ev.eval();
+		ctx.ev.class("offsets_sum_to_zero");
+	}
+	let whole = aggregate(&txs).map_err(|e| {
+		Fail::new(
+			ZERO_SUM_SIG,
+			format!("aggregate of {} valid transactions whose (non-zero) offsets sum to zero failed: {:?}", k, e),
+		)
+	})?;
+	check_model("agg", "aggregate (offsets summing to zero)", &whole, &ex)?;
+	if let Err(e) = whole.validate(Weighting::NoLimit) {
+		fail!("agg:invalid", "aggregate (offsets summing to zero) does not validate: {:?}", e);
+	}
+	Ok(())
+}
+
+/// part "block_cancel": one valid transaction whose offset is minus the
+/// previous header's total kernel offset (any header may carry any total).
+/// The block must build, with a zero total offset, and hydrate back.
+pub fn check_block_cancel(ctx: &Ctx, variant: u32, counting: bool) -> PResult {
+	init_thread();
+	let mut prev = grin_core::genesis::genesis_dev().header;
+	let t = BlindingFactor::from_secret_key(scalar_from(format!("c12-prev-offset-{}", variant).as_bytes()));
+	prev.total_kernel_offset = t.clone();
+	let out = universe((variant as usize * 7 + 3) % UNIVERSE);
+	let inp = OutRef {
+		amount: out.amount + 2,
+		key: 3000 + variant,
+		cb: false,
+	};
+	let tx = tx_with_offset(&[inp], &[out], 2, &negate(&[t])?)?;
+	if counting {
+		ctx.ev.eval();
+		ctx.ev.class("block_offsets_sum_to_zero");
+	}
+	let (_, reward_out, reward_kern) = LIB.coinbase(2, 0);
+	let mut b = Block::from_reward(&prev, &[tx.clone()], reward_out, reward_kern, Difficulty::from_num(1)).map_err(|e| {
+		Fail::new(
+			ZERO_SUM_SIG,
+			format!("from_reward over one valid transaction whose offset cancels the previous total kernel offset failed: {:?}", e),
+		)
+	})?;
+	b.header.timestamp = prev.timestamp + chrono::Duration::seconds(60);
+	ensure!(b.header.total_kernel_offset == BlindingFactor::zero(), "block:offset", "total_kernel_offset is not previous total + Σ offsets (= zero)");
+	let cb: CompactBlock = b.clone().into();
+	check_compact("From<Block>", &cb, &b)?;
+	let hb = Block::hydrate_from(cb, &[tx]).map_err(|e| Fail::new("hydrate:err", format!("{:?}", e)))?;
+	same_block("hydrate_from(From<Block>, the transaction)", &hb, &b)
+}
+
+// ---------------------------------------------------------------- run / replay
+
+/// the one failure class that is collected without stopping the case
+const SOFT_SIG: &str = "deagg:err:remainder-offset-zero";
+
+/// two independent one-kernel transactions, the first with a non-zero offset,
+/// the second with a zero offset
+fn minimal_zero_remainder_case() -> Case {
+	let mk = |i: usize, zero_offset: bool| {
+		let out = universe(i);
+		TxSpec {
+			inputs: vec![OutRef {
+				amount: out.amount + 1,
+				key: 1000 + i as u32,
+				cb: false,
+			}],
+			outputs: vec![out],
+			kernels: vec![KernelSpec::plain(1)],
+			zero_offset,
+		}
+	};
+	Case {
+		txs: vec![mk(0, false), mk(1, true)],
+		pick: 0,
+		nonce: 0,
+		cb_key: 0,
+	}
+}
+
+pub fn run(ctx: &Ctx) -> HResult<()> {
+	init_global();
+	let ev = &ctx.ev;
+	ev.rule("multisets of 1-6 valid transactions generated by proptest and resolved by construction (outputs drawn without replacement from 64 memoised bulletproof outputs, chained inputs = not-yet-spent outputs of earlier transactions, fresh bare-commitment inputs balance the value; 1-3 kernels per tx of Plain/HeightLocked/NRD with fee shifts, zero or non-zero offset per tx); per multiset: aggregate vs a commitment-set model (kernel multiset, offset sum via libsecp, inputs/outputs = union minus matched pairs both directions, sorted, validates), all permutations (n<=4) or 6 random, every bracketing of the identity and of one random order plus 3 random set partitions, deaggregate of every non-empty proper subset (non-chained multisets only), Block::from_reward -> CompactBlock (From<Block> random nonce + injected chosen nonce) -> hydrate_from for every supply (separate/reordered/single aggregate/every grouping) compared with the block by header hash and bytes | non-trivial = >=1 cut-through pair or >=3 transactions; distinct by (n txs, n cut-through pairs, kernel-variant counts, zero-offset pattern, group sizes of the first random partition)");
+	ev.assume("world::assemble builds the operands (validated with Transaction::validate(AsTransaction) before use); libsecp blind_sum is the offset oracle; consensus sort order (by hash) and Hashed are trusted");
+	ev.assume("hydration means Block::hydrate_from over all the block's transactions (what the statement says), not the pool's short-id lookup");
+
+	// bulletproofs of the universe and of the possible coinbases, on all cores
+	let t0 = std::time::Instant::now();
+	let mut pre: Vec<OutRef> = (0..UNIVERSE).map(universe).collect();
+	for fees in 1..=(MAX_TXS * MAX_KERNELS) as u64 * MAX_FEE {
+		pre.push(OutRef {
+			amount: grin_core::consensus::reward(fees),
+			key: 0,
+			cb: true,
+		});
+	}
+	LIB.prefetch(&pre);
+	ev.extra("prefetch_s", json!(t0.elapsed().as_secs_f64()));
+
+	// offsets that sum to zero (one report per root cause)
+	'cancel: for k in 2..=4usize {
+		for variant in 0..ctx.n(2, 6) as u32 {
+			let r = match catch(|| check_cancel(ctx, k, variant, true)) {
+				Ok(r) => r,
+				Err(p) => Err(p),
+			};
+			if let Err(f) = r {
+				ctx.report("cancel", &f.sig, json!({"k": k, "variant": variant}), &f.msg);
+				break 'cancel;
+			}
+		}
+	}
+
+	for variant in 0..ctx.n(2, 6) as u32 {
+		let r = match catch(|| check_block_cancel(ctx, variant, true)) {
+			Ok(r) => r,
+			Err(p) => Err(p),
+		};
+		if let Err(f) = r {
+			ctx.report("block_cancel", &f.sig, json!({"variant": variant}), &f.msg);
+			break;
+		}
+	}
+
+	// The smallest multiset with a zero-offset remainder, first: if it shows the
+	// de-aggregation failure, that root cause is reported here once, with this
+	// minimal input, and further instances met by the exploration are only counted
+	// (they must not stop it: most independent multisets with mixed offsets have one).
+	let minimal = minimal_zero_remainder_case();
+	let mut soft_reported = false;
+	match catch(|| check_multiset(ctx, &minimal, true)) {
+		Ok(Ok(())) => {}
+		Ok(Err(f)) | Err(f) => {
+			soft_reported = f.sig == SOFT_SIG;
+			ctx.report("multiset", &f.sig, serde_json::to_value(&minimal).unwrap(), &f.msg);
+		}
+	}
+
+	let cases = ctx.n(480, 8000);
+	let soft_seen: std::sync::Mutex<Option<(usize, Case, Fail)>> = std::sync::Mutex::new(None);
+	let fl = pbt_par(ctx, "c12", cases, 16, case_strategy, init_thread, |c, counting| match check_multiset(ctx, c, counting) {
+		Err(f) if f.sig == SOFT_SIG => {
+			if counting {
+				ev.class("deaggregate_failed_remainder_offset_zero");
+			}
+			let size: usize = c.txs.iter().map(|t| 100 + t.inputs.len() + t.outputs.len() + t.kernels.len()).sum();
+			let mut g = soft_seen.lock().unwrap();
+			if g.as_ref().map(|(s, _, _)| size < *s).unwrap_or(true) {
+				*g = Some((size, c.clone(), f));
+			}
+			Ok(())
+		}
+		r => r,
+	});
+	if let Some(fl) = fl {
+		ctx.report("multiset", &fl.fail.sig, serde_json::to_value(&fl.value).unwrap(), &fl.fail.msg);
+	}
+	if let (false, Some((_, c, f))) = (soft_reported, soft_seen.lock().unwrap().take()) {
+		ctx.report("multiset", &f.sig, serde_json::to_value(&c).unwrap(), &f.msg);
+	}
+	ev.extra("proofs_created", json!(LIB.proofs_created.load(std::sync::atomic::Ordering::Relaxed)));
+	for cl in ["with_cut_through", "multi_kernel", "nrd", "height_locked", "zero_offset", "deaggregate_checked", "hydrate_groupings", "injected_nonce"] {
+		if ev.class_count(cl) == 0 {
+			eprintln!("warning: class {} is empty in this run", cl);
+		}
+	}
+	Ok(())
+}
+
+pub fn replay(ctx: &Ctx, part: &str, case: &Value) -> PResult {
+	init_global();
+	match part {
+		"multiset" => {
+			let c: Case = serde_json::from_value(case.clone()).map_err(|e| Fail::new("harness:replay-parse", e.to_string()))?;
+			check_multiset(ctx, &c, false)
+		}
+		"block_cancel" => check_block_cancel(ctx, case["variant"].as_u64().unwrap_or(0) as u32, false),
+		"cancel" => check_cancel(ctx, case["k"].as_u64().unwrap_or(2) as usize, case["variant"].as_u64().unwrap_or(0) as u32, false),
+		_ => Ok(()),
+	}
 }
